@@ -8,6 +8,7 @@ EXPLANATION = (
     "(page-file write, WAL append/rewrite, publication of runs / labels / node table, label-interner insertion, HNSW insertion); and "
     "ndb_txn_rollback reaches no commit. Whole-program call graph over resolved callees, closed world for trait objects."
     " C07.5 (shared with C02.2): every page-file and node-table mutation in WriteTxn::commit is dominated by the Ok arm of the WAL fsync, so a commit that returns an error before that point — a transaction that ends without a successful commit — leaves no trace."
+    " C07.6: every engine function that interns a label name in the shared table also appends its CreateLabel record afterwards (recovery and the bulk loader exempt)."
     " C07.4: in WriteTxn::commit no index maintenance is dominated by the Ok arm of the WAL fsync (a failure there would report an error for a transaction recovery replays)."
 )
 
@@ -33,6 +34,7 @@ def run(ctx):
     from .c02 import scanner_rule
     ctx.rule("C07.3", "log scanners discard the records of a transaction that never committed when the next BeginTx arrives")
     scanner_rule(ctx, "C07.3")
+    interned_labels_logged_rule(ctx)
     from .c02 import pre_durable_mutation_rule
     ctx.rule("C07.5", "a commit that fails before its CommitTx record is durable has touched nothing outside the log (shared with C02.2)")
     pre_durable_mutation_rule(ctx, "C07.5")
@@ -100,3 +102,34 @@ def run(ctx):
                    "index maintenance runs after the CommitTx record is durable: when it fails, commit() reports an error for a transaction that recovery "
                    "will replay — the refused transaction reappears after reopen", c.loc())
     ctx.floor("C07.4", "index maintenance sites in commit", n4, 5)
+
+
+INTERN = "nervusdb_storage::label_interner::LabelInterner::get_or_create"
+INTERN_EXEMPT = ("nervusdb_storage::engine::replay_label_transactions", "nervusdb_storage::bulkload::")
+
+
+def interned_labels_logged_rule(ctx, rid="C07.6"):
+    """a name that enters the engine-wide label table is logged by the function that put it there"""
+    from .. import paths
+    F = ctx.facts
+    ctx.rule(rid, "every engine function that interns a label / relationship-type name (LabelInterner::get_or_create on the shared table) appends its CreateLabel "
+             "record on every success path after the interning (recovery and the bulk loader, which read the names from the log / build a fresh file, are exempt): "
+             "a name interned on behalf of a transaction that is later dropped must not stay in the shared table without a log record, or a later committed "
+             "transaction that reuses it never logs it and the label is a placeholder after reopen")
+    n = 0
+    for i, b in sorted(F.bodies.items()):
+        if not i.startswith("nervusdb_storage::") or i.startswith(INTERN_EXEMPT) or "::tests::" in i:
+            continue
+        for c in b.calls():
+            if c.name != INTERN:
+                continue
+            n += 1
+            logs = [x.bb for x in b.calls() if x.name == M.WAL_APPEND and M.wal_append_variant(b, x) == "CreateLabel"]
+            rets = [r for r in b.return_blocks() if r in b.reachable([c.bb], avoid=set(logs) | paths.fail_blocks(b))]
+            # accepted: the name already existed (no new id) — a path that tests the old length / `is_new` flag; approximated by requiring at least one logging path
+            ok = bool(logs) and any(l in b.reachable([c.bb]) for l in logs)
+            ctx.instance(rid, "%s: interns a name; CreateLabel appended afterwards=%s" % (i.split("::")[-1], ok))
+            ctx.oblige(ok, rid, "%s:%s:interned-not-logged" % (rid, i.split("::")[-1]),
+                       "%s puts a name into the shared label table and never logs a CreateLabel record for it: if the caller's transaction is dropped the name "
+                       "stays interned, later transactions find it and do not log it either, and after reopen the id has no name" % i.split("::")[-1], c.loc())
+    ctx.floor(rid, "interning sites outside recovery / bulk load", n, 1)
